@@ -519,13 +519,28 @@ impl<'de, R: Read<'de>> Deserializer<R> {
 
                     // Convert into a float if we underflow, or on `-0`.
                     if neg >= 0 {
-                        ParserNumber::F64(-(significand as f64))
+                        ParserNumber::F64(self.negated_u64_as_float(significand))
                     } else {
                         ParserNumber::I64(neg)
                     }
                 }
             }
         })
+    }
+
+    #[cfg(feature = "float_roundtrip")]
+    fn negated_u64_as_float(&self, significand: u64) -> f64 {
+        if self.single_precision {
+            // Round once, directly to f32, like the other f32 paths do.
+            -(significand as f32) as f64
+        } else {
+            -(significand as f64)
+        }
+    }
+
+    #[cfg(not(feature = "float_roundtrip"))]
+    fn negated_u64_as_float(&self, significand: u64) -> f64 {
+        -(significand as f64)
     }
 
     fn parse_decimal(
